@@ -276,6 +276,10 @@ func ParseLCPOptions(data []byte) ([]LCPOption, error) {
 		offset += int(optLen)
 	}
 
+	if offset != len(data) {
+		return nil, fmt.Errorf("trailing byte after the last option")
+	}
+
 	return opts, nil
 }
 
